@@ -12,6 +12,7 @@ Record step := mkStep {
   st_list : list event;
   st_dlen : Z;
   st_tlen : Z;
+  st_ilen : Z;           (* number of keys of the secondary index (hook) *)
   st_queries : list (list rfilter * list event);
   st_panic : bool        (* the implementation panicked during this step *)
 }.
@@ -32,6 +33,7 @@ Fixpoint model_steps (s : cstate) (steps : list step) : bool :=
       events_eqb (c_listing s') (st_list st) &&
       (Z.of_nat (length (c_del s')) =? st_dlen st) &&
       (Z.of_nat (length (c_tree s')) =? st_tlen st) &&
+      (Z.of_nat (length (c_idx s')) =? st_ilen st) &&
       forallb (fun q => match c_find s' (fst q) with
                         | Ok out => events_eqb out (snd q)
                         | Panic => false
